@@ -32,6 +32,12 @@ def generate():
         changed = write_if_changed(os.path.join(COQ, "Generated", name), text)
         info["files"][name] = {"bytes": len(text), "rewritten": changed}
     info["registry"] = ginfo
+    import gen_tables
+    files3, tinfo = gen_tables.generate()
+    for name, text in files3.items():
+        changed = write_if_changed(os.path.join(COQ, "Generated", name), text)
+        info["files"][name] = {"bytes": len(text), "rewritten": changed}
+    info["tables"] = tinfo
     info["regexes"] = len(rinfo)
     info["hand_modelled"] = [k for k, v in rinfo.items() if v.get("status") == "hand-modelled"]
     return info
